@@ -834,7 +834,26 @@ impl C18 {
 	fn look_scan(&mut self, sim: &mut Sim, kc: &ExtKeychain, pay: &Pay, st: &mut St, l: &Look, tag: &str, out: &mut Outcome) -> Result<(), String> {
 		let before = pay_view(sim, pay);
 		let t0 = std::time::Instant::now();
-		let r = sim.w(RECEIVER).owner.scan(sim.w(RECEIVER).m(), None, false).map_err(|e| e.to_string());
+		// in a quarter of the scans the node stops answering after a generated number of calls: the interrupted scan
+		// must fail, or be complete and right; when it failed, the scan repeated with the node back is the one judged
+		let r = if l.frac % 4 == 1 {
+			let after = ((l.frac / 4) % 24) as u64;
+			sim.world.node.with(|s| {
+				s.down = false;
+				s.down_after = Some(after);
+			});
+			let r1 = sim.w(RECEIVER).owner.scan(sim.w(RECEIVER).m(), None, false).map_err(|e| e.to_string());
+			sim.set_node_down(false);
+			out.class(format!("scan:node-fails-after-n-calls:{}", if r1.is_ok() { "ok" } else { "err" }));
+			sim.log.push(format!("look {}: owner.scan with the node failing after {} calls -> {:?}; node back", tag, after, r1));
+			if r1.is_err() {
+				sim.w(RECEIVER).owner.scan(sim.w(RECEIVER).m(), None, false).map_err(|e| e.to_string())
+			} else {
+				r1
+			}
+		} else {
+			sim.w(RECEIVER).owner.scan(sim.w(RECEIVER).m(), None, false).map_err(|e| e.to_string())
+		};
 		self.tick("owner_scan", t0);
 		let on = truth::kernel_on_chain(&sim.world.chain, &pay.excess);
 		let tip = sim.world.height();
